@@ -54,7 +54,6 @@ func (h *Sources) Save() {
 	// Make a copy of the cursor and ensure its position.
 	cur := core.NewCursor(h.line)
 	cur.Set(h.cursor.Pos())
-	cur.CheckCommand()
 
 	// And save the item.
 	line.items = append(line.items, undoItem{
